@@ -994,6 +994,14 @@ def srchash_splitCouple : String := "ae021b08e0e9b67c"
 /-- sha256 of the printed source of kvm.Set (/repo/31/cvss31.go:925:1) -/
 def srchash_kvm_Set : String := "a4ff4c38bdba813b"
 
+/-- `init` functions of the package (file:init) -/
+def pkg_inits : List String :=
+  []
+
+/-- build constraints on non-test source files other than the verification hooks (file:constraint) -/
+def pkg_build_tags : List String :=
+  []
+
 /-- package-level variables (name:type) -/
 def pkg_vars : List String :=
   ["ErrInvalidCVSSHeader:error", "ErrInvalidMetricValue:error", "ErrOutOfBoundsScore:error", "ErrTooShortVector:error"]
